@@ -121,13 +121,41 @@ def stream_sample(ctx, ntables):
                 # stitch: the deliberate "Empty sequence in cluster")
                 empty_cluster = isinstance(e, ValueError) and ("empty range in randrange(0, 0)" in str(e) or "Empty sequence in cluster" in str(e))
                 empty_left = isinstance(e, ValueError) and "Attempted a stitch with no rows" in str(e)       # known finding F19: the table so far is empty, a derived cluster is not
+                # known finding F21: a released range of a text column beyond the last string code (raised by value_map[...] in _map_interval)
+                import traceback
+                tb_last = traceback.extract_tb(e.__traceback__)[-1]
+                beyond_map = isinstance(e, IndexError) and tb_last.name == "_map_interval" and "value_map" in (tb_last.line or "")
                 ctx.oracle_fail(f"synthesis raised {type(e).__name__}: {str(e)[:200]} ({desc})",
                                 {"table": ES.typed_summary(t), "strategy": desc, "head": t["df"].head(5).astype(str).values.tolist()},
-                                "raises-empty-cluster" if empty_cluster else "raises-empty-left-table" if empty_left else "raises"); continue
+                                "raises-empty-cluster" if empty_cluster else "raises-empty-left-table" if empty_left else
+                                "raises-string-range-beyond-value-map" if beyond_map else "raises"); continue
             multi = len(syn.clusters.derived_clusters) > 0
             S.count((repr(t["df"].astype(str).values.tolist()), desc, repr(t["ap"])), ncols >= 3 or multi,
                     {"table": ES.typed_summary(t), "strategy": desc, "clusters": PS.clusters_str(syn.clusters), "rows_out": len(out)}, tag=desc.split("-")[0] + ("/multi" if multi else ""))
             check_output(ctx, t, out, desc)
+    # the table of known finding F21, always evaluated (a text column whose strings are all below low_threshold while its nulls are not)
+    try:
+        from syndiffix.common import AnonymizationParams, BucketizationParams, FlatteningInterval, SuppressionParams
+        from syndiffix.clustering.strategy import SingleClustering
+        N_ = None
+        s21 = ["日本", "ß", "a b", "a b", "a b", "", N_, "", N_, "é", "é", "é", "日本", N_, N_, N_, "日本", "ß", N_, N_]
+        f21 = [np.nan, 21.10, 15.57, 47.88, 7.11, 31.20, 29.16, 197.45, 33.00, 45.58, 14.23, 40.47, 13.48, 22.66, 13.33, 5.39, 7.29, 91.25, 143.79, 21.95]
+        df21 = pd.DataFrame({"é": [0] * 20, "col3": pd.Series(s21, dtype=object), "a b": f21})
+        ids21 = [9223372036854791646, 18446744073709551614, 9223372036854775808, 18446744073709551614, 9223372036854791646, 9223372036854775808, 18446744073709551615,
+                 9223372036854799565, 18446744073709551614, 18446744073709551614, 9223372036854783727, 9223372036854775808, 9223372036854791646, 9223372036854775808,
+                 9223372036854791646, 9223372036854799565, 9223372036854775808, 18446744073709551614, 18446744073709551613, 18446744073709551615]
+        ap21 = AnonymizationParams(salt=b"\x06", low_count_params=SuppressionParams(low_threshold=5, layer_sd=0.5, low_mean_gap=1.0),
+                                   outlier_count=FlatteningInterval(1, 1), top_count=FlatteningInterval(2, 2), layer_noise_sd=1.0)
+        bp21 = BucketizationParams(singularity_low_threshold=1, range_low_threshold=2, precision_limit_row_fraction=10, precision_limit_depth_threshold=2)
+        S.count(("F21",), True, {"corpus": "F21", "rows": 20}, tag="corpus-F21")
+        Synthesizer(df21, pids=pd.DataFrame({"id": np.array(ids21, dtype=np.uint64)}), anonymization_params=ap21, bucketization_params=bp21, clustering=SingleClustering()).sample()
+    except IndexError as e:
+        import traceback
+        tb_last = traceback.extract_tb(e.__traceback__)[-1]
+        ctx.oracle_fail(f"synthesis raised IndexError: {str(e)[:120]} (corpus table F21, single)", {"corpus": "F21", "where": tb_last.name},
+                        "raises-string-range-beyond-value-map" if tb_last.name == "_map_interval" and "value_map" in (tb_last.line or "") else "raises")
+    except Exception as e:
+        ctx.oracle_fail(f"synthesis raised {type(e).__name__}: {str(e)[:120]} (corpus table F21, single)", {"corpus": "F21"}, "raises")
     # one strategy object (main column / target given by name) used for two tables that have the named column at different positions
     from syndiffix.clustering.strategy import DefaultClustering
     for _ in range(ctx.scale(3, 20)):
